@@ -645,6 +645,46 @@ theorem allocation_total_is_own_element (s : List Alloc.Element) (row : List All
   · have : (ramp != 0) = true := by simpa using hr
     simp [rampUpWait, this, hne]
 
+/-! ## loop-control keys as the track file spells them -/
+
+/-- **explicit_zero_is_a_definition.**  A key that a task spells out counts, whatever the value: `0`, `0.0` (the same rational)
+    and any other number override the enclosing `parallel` element's value; `null` means "nothing"; only a key that is left out
+    inherits. -/
+theorem explicit_zero_is_a_definition (d : Option Rat) (q : Rat) :
+    readKey (.num q) d = some q ∧ readKey (.num 0) d = some 0 ∧ readKey .null d = none ∧ readKey .absent d = d :=
+  ⟨rfl, rfl, rfl, rfl⟩
+
+/-- **parallel_task_keeps_its_own_keys.**  Whenever the reader accepts a `parallel` element, every task gets, for each of the five
+    keys, its own spelling if it has one and the element's otherwise — in particular `"warmup-iterations": 0` next to a parallel
+    default of 5 is a task with 0 warm-up iterations (so by `iteration_count` it runs exactly `iterations` requests, none flagged
+    warm-up), and `"warmup-time-period": 0` is a task without warm-up period. -/
+theorem parallel_task_keeps_its_own_keys (par : LoopSpec) (tasks : List LoopSpec) (vs : List LoopVals)
+    (h : parseParallelLoops par tasks = some vs) :
+    vs.length = tasks.length ∧
+    ∀ p ∈ tasks.zip vs,
+      p.2.warmupIt = readKey p.1.warmupIt (parallelDefault par.warmupIt) ∧
+      p.2.iters = readKey p.1.iters (parallelDefault par.iters) ∧
+      p.2.warmupT = readKey p.1.warmupT (parallelDefault par.warmupT) ∧
+      p.2.period = readKey p.1.period (parallelDefault par.period) ∧
+      p.2.rampUp = readKey p.1.rampUp (parallelDefault par.rampUp) := by
+  unfold parseParallelLoops at h
+  split at h
+  · cases h
+  · rename_i vs' hm
+    split at h
+    · injection h with h
+      subst h
+      have ⟨h1, h2⟩ := mapM_option_zip _ tasks vs' hm
+      refine ⟨h1, fun p hp => ?_⟩
+      have := parseTaskLoop_vals (h2 p hp)
+      rw [this]
+      exact ⟨rfl, rfl, rfl, rfl, rfl⟩
+    · cases h
+
+/-- a task with `"warmup-iterations": 0, "iterations": 7` inside `parallel` with `"warmup-iterations": 5`: 0 and 7 -/
+example : parseParallelLoops { LoopSpec.none with warmupIt := .num 5 } [{ LoopSpec.none with warmupIt := .num 0, iters := .num 7 }, LoopSpec.none] =
+    some [⟨some 0, some 7, none, none, none⟩, ⟨some 5, none, none, none, none⟩] := by decide +kernel
+
 /-! ## the literal reading of "stops issuing requests once the time period has elapsed"
 
 The code checks the clock *before* it generates parameters and waits for the scheduled slot, so the
